@@ -135,8 +135,9 @@ def run_task(task):
         st.parts[part.name] = dict(evaluations=st.evaluations, wall_s=round(time.time() - ctx.t0, 2),
                                    exhaustive=exhaustive, shards=1)
         return ("ok", st)
-    except BaseException:  # noqa
-        return ("error", "part %s/%s shard %d: %s" % (task[0], task[1], task[4], traceback.format_exc()))
+    except BaseException as e:  # noqa
+        frames = "".join(traceback.format_tb(e.__traceback__)[-5:])
+        return ("error", "part %s/%s shard %d: %s: %s\n%s" % (task[0], task[1], task[4], type(e).__name__, str(e)[:600], frames))
 
 
 # ----------------------------------------------------------------------------------
@@ -298,8 +299,14 @@ def main(argv=None):
                     else:
                         errors.append(payload)
         if errors:
+            seen = set()
             for e in errors:
+                sig = e.split(": ", 1)[1].split("\n")[0] if ": " in e else e
+                if sig in seen:
+                    continue
+                seen.add(sig)
                 log("HARNESS ERROR " + e)
+            log("HARNESS ERROR %d task(s) failed" % len(errors))
             return 2
 
         new = {b: f for b, f in stats.failures.items() if b not in known}
